@@ -5,3 +5,4 @@ open Hera
 #print axioms C18_unknown_flag
 #print axioms C18_after_dashes
 #print axioms C18_throttle_value
+#print axioms C18_incompatible
